@@ -215,9 +215,9 @@ type VExploreCfg struct {
 }
 
 func vSanitize(data string) string {
-	// mirror of handlePostMessage: the line is cut at the first LF (conformance with the
-	// real handler is established by C15's API tier)
-	if idx := strings.IndexByte(data, '\n'); idx > -1 {
+	// mirror of handlePostMessage / handleDeleteSession: the text is cut at the first LF, CR
+	// or NUL (conformance with the real handlers is established by C15's API tier)
+	if idx := strings.IndexAny(data, "\n\r\x00"); idx > -1 {
 		data = data[:idx]
 	}
 	return data
@@ -296,6 +296,9 @@ func vEntriesFor(in *VInst, full bool) []VEntry {
 	rev := i.Config.Revision
 	i.ConfigMu.RUnlock()
 	for _, e := range vNonLineEntries(ids, rev) {
+		if e.Type == robust.DeleteSession {
+			e.Data = vSanitize(e.Data)
+		}
 		e.Id = next
 		e.UnixNano = now + int64(time.Second)
 		es = append(es, e)
